@@ -55,6 +55,9 @@ pub const R_ROUND_END: u32 = 20;
 // argv: mode nbatches { nthreads { class panics nrec sleep_ms alloc fate } * nthreads } * nbatches
 /// mode 1: run under the tracer (QUIESCE is a barrier); mode 0: native (QUIESCE sleeps)
 pub const MODE_TRACED: u64 = 1;
+/// mode bit: freed blocks go straight back to the allocator (no quarantine), so that a block's
+/// address is reused at once, as in an ordinary program
+pub const MODE_NO_QUARANTINE: u64 = 2;
 
 pub const CLASSES: u32 = 11;
 pub const C_UNIT: u32 = 0;
